@@ -21,5 +21,7 @@ def run(chk):
     state_contracts.create_checkpoint(chk, "C03", want=("C03",))
     state_contracts.consumer(chk, "C03")
     state_contracts.completion_event_contract(chk, "C03")
+    from . import context_contracts
+    context_contracts.wait_validation(chk, "C03")
     from . import wrapper_contracts
     wrapper_contracts.wrapper_obligations(chk, "C03", want=("C03",))
